@@ -1,4 +1,5 @@
 import ParryModel.C04.Theorems3
+import ParryModel.C04.ModelHf2
 /-!
 # C04 property theorems, part 5: completeness of the 3-D heightfield grid walk
 
@@ -25,6 +26,17 @@ def HfWatertight (h : HeightField3 K) : Prop :=
   letI := fieldNum K sq
   ∀ i j p, i < h.nr - 1 → j < h.nc - 1 → ColMem sq h i j p → HfSurf sq h p →
     CellMem sq (h.trianglesAt i j).1 (h.trianglesAt i j).2 p
+
+/-- watertightness along one ray: what the walk theorems actually use -/
+def HfRayWatertight (h : HeightField3 K) (ray : Ray3 K) : Prop :=
+  letI := fieldNum K sq
+  ∀ s i j, i < h.nr - 1 → j < h.nc - 1 → ColMem sq h i j (rayPt sq ray s) → HfSurf sq h (rayPt sq ray s) →
+    CellMem sq (h.trianglesAt i j).1 (h.trianglesAt i j).2 (rayPt sq ray s)
+
+/-- the open column of cell `(i, j)` -/
+def ColInt (h : HeightField3 K) (i j : Nat) (p : V3 K) : Prop :=
+  letI := fieldNum K sq
+  (h.xAt j < p.x ∧ p.x < h.xAt (j + 1)) ∧ (h.zAt i < p.z ∧ p.z < h.zAt (i + 1))
 
 /-- no ray/triangle pair of the field is coplanar (the case the triangle cast gives up on, KNOWN_FINDINGS) -/
 def HfNotCoplanar (h : HeightField3 K) (ray : Ray3 K) : Prop :=
@@ -220,21 +232,21 @@ theorem hf_nextCell_dir (big : K) (h : HeightField3 K) (ray : Ray3 K) (maxT : K)
 
 /-- the part of the ray inside the closed column of a cell whose cast reported nothing carries no surface point -/
 private theorem no_surf_in_missed_col (h : HeightField3 K) (ray : Ray3 K) (max : K) (solid : Bool) (ci cj : Nat)
-    (hvalid : ci < h.nr - 1 ∧ cj < h.nc - 1) (hnc : HfNotCoplanar sq h ray) (hw : HfWatertight sq h)
+    (hvalid : ci < h.nr - 1 ∧ cj < h.nc - 1) (hnc : HfNotCoplanar sq h ray) (hw : HfRayWatertight sq h ray)
     (hc : letI := fieldNum K sq
       hfCellCast (h.trianglesAt ci cj).1 (h.trianglesAt ci cj).2 ray max solid = none)
     (s : K) (hs0 : 0 ≤ s) (hsm : s ≤ max) (hcol : ColMem sq h ci cj (rayPt sq ray s)) :
     ¬ HfSurf sq h (rayPt sq ray s) := by
   intro hsurf
-  have hm := hw ci cj _ hvalid.1 hvalid.2 hcol hsurf
+  have hm := hw s ci cj hvalid.1 hvalid.2 hcol hsurf
   have hf := hfCellCast_firstHit sq _ _ ray max solid (hnc ci cj).1 (hnc ci cj).2
   rw [hc] at hf
   exact hf s hs0 hsm hm
 
 /-- **Completeness of the 3-D heightfield grid walk** (the `loop` of `ray_heightfield.rs`, corrected boundary times).
 Start the walk in the valid cell `(ci, cj)` with the ray in the closed column of that cell at parameter `t0 ≥ 0`; grid lines
-non-decreasing (`hf_grid_mono`), `max_t ≤ max_toi`, `max_t < Real::MAX`, no triangle coplanar with the ray, watertight
-surface, enough fuel for the cells ahead (`hfRemaining`, which the cast's own fuel `nrows + ncols` always exceeds).  Then
+non-decreasing (`hf_grid_mono`), `max_t ≤ max_toi`, `max_t < Real::MAX`, no triangle coplanar with the ray, surface
+watertight along the ray (`HfRayWatertight`), enough fuel for the cells ahead (`hfRemaining`, which the cast's own fuel `nrows + ncols` always exceeds).  Then
 * `Some r`: `0 ≤ r.toi ≤ max_toi`, the point `origin + dir·toi` is on the surface, and NO point of the ray at a parameter of
   `[t0, toi)` is on the surface of ANY cell — the walk skipped nothing;
 * `None`: no point of the ray at a parameter of `[t0, max_t]` is on the surface. -/
@@ -242,7 +254,7 @@ theorem hf_walk_firstHit (big : K) (h : HeightField3 K) (ray : Ray3 K) (max : K)
     (hbig : maxT < big) (hmax : maxT ≤ max)
     (hmx : letI := fieldNum K sq; ∀ j, h.xAt j ≤ h.xAt (j + 1))
     (hmz : letI := fieldNum K sq; ∀ i, h.zAt i ≤ h.zAt (i + 1))
-    (hnc : HfNotCoplanar sq h ray) (hw : HfWatertight sq h)
+    (hnc : HfNotCoplanar sq h ray) (hw : HfRayWatertight sq h ray)
     (fuel : Nat) (ci cj : Nat) (t0 : K) (ht0 : 0 ≤ t0)
     (hvalid : ci < h.nr - 1 ∧ cj < h.nc - 1)
     (hin : ColMem sq h ci cj (rayPt sq ray t0))
@@ -268,7 +280,7 @@ theorem hf_walk_firstHit (big : K) (h : HeightField3 K) (ray : Ray3 K) (max : K)
       refine ⟨f0, f1, ⟨ci, cj, hvalid.1, hvalid.2, f2⟩, fun s a b hsurf => ?_⟩
       have hcolhit := hf_cellMem_colMem sq h ci cj _ (hmx cj) (hmz ci) f2
       have hcol := colMem_convex sq h ray ci cj t0 hit.toi s hin hcolhit a b.le
-      exact f3 s (le_trans ht0 a) b (hw ci cj _ hvalid.1 hvalid.2 hcol hsurf)
+      exact f3 s (le_trans ht0 a) b (hw s ci cj hvalid.1 hvalid.2 hcol hsurf)
     | none =>
       simp only
       have hmiss := no_surf_in_missed_col sq h ray max solid ci cj hvalid hnc hw hc
@@ -464,6 +476,43 @@ theorem hf_closestCell_colMem (h : HeightField3 K) (p : V3 K) (hnc : 2 ≤ h.nc)
   · rw [zAt_eq]; exact b2
   · rw [zAt_eq]; exact b3
 
+/-! ### 2-D heightfield: the start cell -/
+
+/-- **2-D `HeightField` cast, start cell** (`cell_at_point` on the clipped entry point): for a point whose `x` lies in the
+footprint `[-scale.x/2, scale.x/2]` (at least two heights, positive horizontal scale) the fallback branch is not taken, the
+returned index is a cell of the field and the point lies between the two grid abscissae of that cell — the endpoints
+`x0·scale.x`, `(x0 + unit_cell_width)·scale.x` of `segment_at(cell)`.  (Was: "that the start cell is the cell containing the
+clipped entry point is not proved".) -/
+theorem hf2_startCell_spec (h : HeightField2 K) (pt : V2 K) (ox : K) (hsize : 2 ≤ h.hs.size) (hsx : 0 < h.sc.x)
+    (hlo : -(1 / 2 : K) * h.sc.x ≤ pt.x) (hhi : pt.x ≤ (1 / 2 : K) * h.sc.x) :
+    letI := fieldNum K sq
+    let c := h.startCell pt ox
+    c < h.numCells ∧ (-(1 / 2 : K) + h.ucw * (c : K)) * h.sc.x ≤ pt.x ∧
+      pt.x ≤ (-(1 / 2 : K) + h.ucw * (c : K) + h.ucw) * h.sc.x := by
+  have hu : @HeightField2.ucw K (fieldNum K sq) h * (((h.hs.size - 1 : Nat)) : K) = 1 := by
+    simp only [HeightField2.ucw, lit_natK]
+    have e : (((h.hs.size - 1 : Nat)) : K) = (h.hs.size : K) - 1 := by
+      rw [Nat.cast_sub (by omega)]; simp
+    rw [e]
+    have : (2 : K) ≤ (h.hs.size : K) := by exact_mod_cast hsize
+    have hne : (h.hs.size : K) - 1 ≠ 0 := by intro h0; linarith
+    field_simp
+  obtain ⟨a1, a2, a3⟩ := quantize_spec sq pt.x (@HeightField2.ucw K (fieldNum K sq) h) h.sc.x (h.hs.size - 1) (by omega)
+    hu hsx hlo hhi
+  have hin : ¬ (pt.x / h.sc.x < -(1 / 2 : K) ∨ (1 / 2 : K) < pt.x / h.sc.x) := by
+    rintro (c | c)
+    · rw [div_lt_iff₀ hsx] at c; linarith
+    · rw [lt_div_iff₀ hsx] at c; linarith
+  simp only [HeightField2.startCell, HeightField2.numCells, lit_half, if_neg hin]
+  refine ⟨a1, a2, ?_⟩
+  have e : (-(1 / 2 : K) + @HeightField2.ucw K (fieldNum K sq) h *
+      ((@HeightField3.quantizeFloor K (fieldNum K sq) (pt.x / h.sc.x) (@HeightField2.ucw K (fieldNum K sq) h)
+        (h.hs.size - 1) : Nat) : K) + @HeightField2.ucw K (fieldNum K sq) h) =
+      (-(1 / 2 : K) + @HeightField2.ucw K (fieldNum K sq) h *
+      (((@HeightField3.quantizeFloor K (fieldNum K sq) (pt.x / h.sc.x) (@HeightField2.ucw K (fieldNum K sq) h)
+        (h.hs.size - 1)) + 1 : Nat) : K)) := by push_cast; ring
+  rw [e]; exact a3
+
 /-! ### the surface lies in the bounding box -/
 
 private theorem foldl_min_le :
@@ -581,14 +630,48 @@ theorem hf_surf_in_aabb (h : HeightField3 K) (p : V3 K) (hnc : 2 ≤ h.nc) (hnr 
   simp only [AabbMem, HeightField3.aabb, lit_half]
   refine ⟨⟨by linarith, by linarith⟩, hy, ⟨by linarith, by linarith⟩⟩
 
+/-! ### two sufficient conditions for `HfRayWatertight` -/
+
+/-- a watertight field is watertight along every ray -/
+theorem hf_rayWatertight_of_watertight (h : HeightField3 K) (ray : Ray3 K) (hw : HfWatertight sq h) :
+    HfRayWatertight sq h ray :=
+  fun _ i j hi hj hc hs => hw i j _ hi hj hc hs
+
+/-- **any field (removed triangles allowed), generic ray**: if every surface point of the ray lies in the OPEN column of
+some cell (the ray never meets the surface exactly above a grid line), the field is watertight along the ray -/
+theorem hf_rayWatertight_of_generic (h : HeightField3 K) (ray : Ray3 K)
+    (hmx : letI := fieldNum K sq; ∀ j, h.xAt j ≤ h.xAt (j + 1))
+    (hmz : letI := fieldNum K sq; ∀ i, h.zAt i ≤ h.zAt (i + 1))
+    (hgen : ∀ s, HfSurf sq h (rayPt sq ray s) → ∃ i j, ColInt sq h i j (rayPt sq ray s)) :
+    HfRayWatertight sq h ray := by
+  intro s i j hi hj hcol hsurf
+  obtain ⟨i0, j0, ⟨x1, x2⟩, ⟨z1, z2⟩⟩ := hgen s hsurf
+  -- a closed column containing a point of the open column (i0, j0) is the column (i0, j0)
+  have uniq : ∀ i' j', ColMem sq h i' j' (rayPt sq ray s) → i' = i0 ∧ j' = j0 := by
+    rintro i' j' ⟨⟨a1, a2⟩, ⟨a3, a4⟩⟩
+    constructor
+    · rcases Nat.lt_trichotomy i' i0 with c | c | c
+      · have := mono_le (K := K) hmz (i' + 1) i0 (by omega); linarith
+      · exact c
+      · have := mono_le (K := K) hmz (i0 + 1) i' (by omega); linarith
+    · rcases Nat.lt_trichotomy j' j0 with c | c | c
+      · have := mono_le (K := K) hmx (j' + 1) j0 (by omega); linarith
+      · exact c
+      · have := mono_le (K := K) hmx (j0 + 1) j' (by omega); linarith
+  obtain ⟨i', j', hi', hj', hcm⟩ := hsurf
+  obtain ⟨e1, e2⟩ := uniq i' j' (hf_cellMem_colMem sq h i' j' _ (hmx j') (hmz i') hcm)
+  obtain ⟨e3, e4⟩ := uniq i j hcol
+  subst e1 e2; rw [e3, e4]; exact hcm
+
 /-! ### the whole cast -/
 
 /-- **3-D HeightField cast = first hit of the whole surface** (`HeightField::cast_local_ray_and_get_normal`, corrected start
 cell and boundary times; replaces the unproved statement `hf_cast_firstHit_full`).  Field with at least 2×2 heights, stored
 heights matrix of the declared size, positive horizontal scales, non-negative vertical scale, non-flat bounding box
 (`AabbStrict`, needed by `clip_aabb_line_spec`), `0 ≤ max_toi < Real::MAX`, any direction of any length, both `solid` flags,
-no triangle coplanar with the ray (KNOWN_FINDINGS), watertight surface (no boundary edge left dangling by a removed
-triangle).  Then the reported time is the FIRST parameter of `[0, max_toi]` at which the ray is on the surface — the union
+no triangle coplanar with the ray (KNOWN_FINDINGS), surface watertight along the ray (`HfRayWatertight`: implied by
+`HfWatertight` — no boundary edge left dangling by a removed triangle — for every ray, and, for ANY field, by the ray not
+meeting the surface exactly above a grid line: `hf_rayWatertight_of_generic`).  Then the reported time is the FIRST parameter of `[0, max_toi]` at which the ray is on the surface — the union
 over ALL cells, not only the visited ones — and `None` means the segment `[0, max_toi]` misses the whole surface: the
 bounding-box clip discards nothing, the start cell contains the entry point, and the grid walk visits every column the ray
 crosses, in order, until the hit. -/
@@ -597,7 +680,7 @@ theorem hf_cast_firstHit (big : K) (h : HeightField3 K) (ray : Ray3 K) (max : K)
     (hsize : h.hs.size = h.nr * h.nc)
     (hbox : letI := fieldNum K sq; AabbStrict h.aabb)
     (hmax0 : 0 ≤ max) (hmaxb : max < big)
-    (hncp : HfNotCoplanar sq h ray) (hw : HfWatertight sq h) :
+    (hncp : HfNotCoplanar sq h ray) (hw : HfRayWatertight sq h ray) :
     letI := fieldNum K sq
     FirstHit (HfSurf sq h) (rayPt sq ray) max ((h.castLocalRayAndGetNormal big ray max solid).map (·.toi)) := by
   have hbig0 : 0 ≤ big := le_trans hmax0 hmaxb.le
@@ -697,6 +780,23 @@ theorem hf_cast_firstHit (big : K) (h : HeightField3 K) (ray : Ray3 K) (max : K)
                 · exact absurd c3 (not_lt.2 sm)
               have := ((hiff s (by linarith) (le_trans sm hmaxb.le)).1 (hin _ hs)).2
               linarith
+
+/-- **posed 3-D HeightField cast** (`cast_ray_and_get_normal`): first hit of the posed surface `{p : m⁻¹·p ∈ surface}`, same
+time of impact as the local cast of the inverse-transformed ray (hypotheses on the local ray) -/
+theorem hf_posed_firstHit (big : K) (h : HeightField3 K) (m : Iso3 K) (ray : Ray3 K) (max : K) (solid : Bool)
+    (hnc : 2 ≤ h.nc) (hnr : 2 ≤ h.nr) (hsx : 0 < h.sc.x) (hsy : 0 ≤ h.sc.y) (hsz : 0 < h.sc.z)
+    (hsize : h.hs.size = h.nr * h.nc)
+    (hbox : letI := fieldNum K sq; AabbStrict h.aabb)
+    (hmax0 : 0 ≤ max) (hmaxb : max < big)
+    (hncp : letI := fieldNum K sq; HfNotCoplanar sq h (ray.invTransform m))
+    (hw : letI := fieldNum K sq; HfRayWatertight sq h (ray.invTransform m)) :
+    letI := fieldNum K sq
+    FirstHit (fun p => HfSurf sq h (m.invAct p)) (rayPt sq ray) max
+      ((h.castRayAndGetNormal big m ray max solid).map (·.toi)) := by
+  rw [hf_posed_toi]
+  exact (firstHit_posed sq _ m ray max _).1
+    (hf_cast_firstHit sq big h (@Ray3.invTransform K (fieldNum K sq) ray m) max solid hnc hnr hsx hsy hsz hsize hbox
+      hmax0 hmaxb hncp hw)
 
 /-- non-vacuity of `hf_cast_firstHit`: the single-cell field is watertight (only one cell) -/
 example : letI := fieldNum ℚ id
